@@ -172,14 +172,14 @@ impl Kind {
 }
 
 /// the guess a later call would receive if it were built from the result of `c` (None: c did not converge)
-fn next_guess(kind: Kind, c: &Call) -> Option<Vec<f64>> {
+fn next_guess(kind: Kind, c: &Call, consumer: &Call) -> Option<Vec<f64>> {
     let r = c.result.as_ref()?;
     Some(match kind {
         Kind::Pure | Kind::Flash => r.clone(),
         Kind::Bd => {
             // spec = [is_pressure_spec, value, bubble, x...]; result = [T, p1, p2, x1.., x2..]
             let n = c.spec.len() - 3;
-            let tp = if c.spec[0] == 0.0 {
+            let tp = if consumer.spec[0] == 0.0 {
                 if c.spec[2] == 1.0 {
                     r[2]
                 } else {
@@ -207,7 +207,7 @@ fn origins(kind: Kind, calls: &[Call], reset: &Option<Vec<f64>>) -> Vec<usize> {
             (Some(g), _) => {
                 let mut found = UNKNOWN;
                 for j in (0..k).rev() {
-                    if let Some(ng) = next_guess(kind, &calls[j]) {
+                    if let Some(ng) = next_guess(kind, &calls[j], c) {
                         if bits_eq(g, &ng) {
                             found = j + 1;
                             break;
